@@ -207,7 +207,7 @@ class KCache:
     id()) is a `hit-foreign` event, re-computed without the memo and compared."""
 
     def __init__(self):
-        self.lock = threading.Lock()
+        self.lock = threading.RLock()
         self.owner = {}  # id(g) -> weakref of the graph the cache dict belongs to
         self.counts = {}
         self.events = []
@@ -216,7 +216,8 @@ class KCache:
         self._alive = set()
 
     def c(self, k, n=1):
-        self.counts[k] = self.counts.get(k, 0) + n
+        with self.lock:
+            self.counts[k] = self.counts.get(k, 0) + n
 
     def install(self):
         if self.installed:
@@ -229,6 +230,7 @@ class KCache:
         orig_clear = gu.find_first_common_next_vertex_in_edges__clear_cache
         cache = gu.find_first_common_next_vertex_in_edges_cache
         mon = self
+        self.orig_find, self.orig_clear = orig_find, orig_clear
 
         def note_owner(g, at):
             """called before the real function touches the dict of id(g)"""
